@@ -1069,7 +1069,12 @@ where
                 let propagation_delay =
                     post_insert.duration_since(payload.received);
 
-                let change = if report.prefix_new {
+                // A withdrawal is reported as a withdrawal only: the
+                // report Rib::insert returns for it is a constant and says
+                // nothing about an announcement.
+                let change = if route_status == RouteStatus::Withdrawn {
+                    StoreInsertionEffect::RoutesWithdrawn(1)
+                } else if report.prefix_new {
                     StoreInsertionEffect::RouteAdded
                 } else {
                     StoreInsertionEffect::RouteUpdated
@@ -1083,16 +1088,6 @@ where
                     report.cas_count.try_into().unwrap_or(u32::MAX),
                     change,
                 );
-                if route_status == RouteStatus::Withdrawn {
-                    self.status_reporter.insert_ok(
-                    provenance.ingress_id,
-                    store_op_delay,
-                    propagation_delay,
-                    //num_retries,
-                    report.cas_count.try_into().unwrap_or(u32::MAX),
-                    StoreInsertionEffect::RoutesWithdrawn(1)
-                    );
-                }
 
                 // XXX re-introduce sometime later
                 //if let Some(ref roto_function) = self.roto_function_post {
